@@ -16,7 +16,7 @@ from mindsdb_sql.render.sqlalchemy_render import SqlalchemyRender
 
 from vf.runner import Check, Result, exc_sig
 
-ALPHA = ['a', "'", '"', '\\', '%', ':', ';', '-', '*', '/', '\n', 'é', ' ', 's', 'x']
+ALPHA = ['a', "'", '"', '\\', '%', ':', ';', '-', '*', '/', '\n', '`', 'é', ' ', 's', 'x', '\u00a0', '\t', '$', '{', '?']
 TARGETS = ['to_string', 'mysql', 'postgresql', 'sqlite', 'mssql', 'oracle']
 BACKSLASH_ESCAPES = {'to_string': True, 'mysql': True, 'postgresql': False, 'sqlite': False, 'mssql': False, 'oracle': False}
 MYSQL_ESC = {'n': '\n', 't': '\t', 'r': '\r', '0': '\0', 'b': '\b', 'Z': '\x1a', '\\': '\\', "'": "'", '"': '"', '%': '\\%', '_': '\\_'}
@@ -46,7 +46,7 @@ def build(pos, v):
 
 # values that are equal (or hash-equal) in Python but are different SQL constants, plus a few strings
 TWIN_VALUES = [0, 1, 2, True, False, 0.0, 1.0, 2.0, -1, -1.0, 1.5, '1', '0', '1.0', 'True', 'a', '', None]
-PAIR_POSITIONS = ['select2', 'where2', 'in2', 'insert2', 'update2']
+PAIR_POSITIONS = ['select2', 'where2', 'in2', 'insert2', 'update2', 'insert_rows2', 'insert_rows2_same_column']
 
 
 def build2(pos, v1, v2):
@@ -62,6 +62,10 @@ def build2(pos, v1, v2):
         return A.Select(targets=[A.Identifier('a')], from_table=t, where=A.BinaryOperation('in', args=[A.Identifier('c'), A.Tuple(items=[c(v1), c(v2)])]))
     if pos == 'insert2':
         return A.Insert(table=t, columns=[A.Identifier('a'), A.Identifier('b')], values=[[c(v1), c(v2)]])
+    if pos == 'insert_rows2':
+        return A.Insert(table=t, columns=[A.Identifier('a'), A.Identifier('b')], values=[[c(v1), A.Constant('zz')], [A.Constant('zz'), c(v2)]])
+    if pos == 'insert_rows2_same_column':
+        return A.Insert(table=t, columns=[A.Identifier('a')], values=[[c(v1)], [c(v2)]])
     if pos == 'update2':
         return A.Update(table=t, update_columns={'a': c(v1)}, where=A.BinaryOperation('=', args=[A.Identifier('b'), c(v2)]))
     raise ValueError(pos)
@@ -239,12 +243,13 @@ class CHECK(Check):
 
     def cases(self):
         L = 4 if self.tier == 'thorough' else 3
-        alpha = ALPHA if self.tier == 'thorough' else ALPHA[:12]
+        alpha = ALPHA if self.tier == 'thorough' else ALPHA[:13]
         vals = []
         for n in range(0, L + 1):
             a = alpha if n <= 3 else ALPHA[:8]
             for tup in itertools.product(a, repeat=n):
                 vals.append(''.join(tup))
+        vals += ['run `ls -l` first', 'a\u00a0b', '{x}', '${x}', '?', '??', 'a\tb', '\u2028', '[x]', '#x', '@x', '@@x', 'NULL', 'true', '\x00', 'a\rb']
         vals += ["\\' OR 1=1 -- ", "'; drop table t; --", 'it\'s', '%s', ':x', '%(x)s', '\\\\', "a\\'b", 'x' * 300]
         others = [0, 1, -5, 10 ** 20, 1.5, -0.25, 1e-7, True, False, None, dt.date(2020, 1, 2), dt.datetime(2020, 1, 2, 3, 4, 5)]
         out = []
@@ -297,7 +302,8 @@ class CHECK(Check):
                 else:
                     tree = build2(pos, v1, v2)
                     text = str(tree) if target == 'to_string' else SqlalchemyRender(target).get_string(tree, with_failback=False)
-                    want = a1 + a2
+                    zz = ["'zz'"]
+                    want = a1 + zz + zz + a2 if pos == 'insert_rows2' else a1 + a2
             except Exception as e:
                 res.count('pair_render_unsupported')
                 continue
@@ -372,6 +378,17 @@ class CHECK(Check):
                     if not ok:
                         res.violation(f'{target}|{pos_sig}|literal-denotes-other-value|{cls}', f'value {v!r} renders as {text!r}; the literal {raw!r} denotes {shown!r} under {target} rules')
                         continue
+                    if target == 'to_string' and isinstance(v, str):
+                        # read the literal back with the library's own (live) lexer and parser
+                        try:
+                            from mindsdb_sql import parse_sql
+                            node = parse_sql('select ' + raw, 'mindsdb').targets[0]
+                            back = node.value if isinstance(node, A.Constant) else None
+                        except Exception:
+                            back = None
+                        res.count('library_readbacks')
+                        if back != expect:
+                            res.violation(f'{target}|{pos_sig}|library-lexer-reads-back-other-value|{cls}', f'value {v!r} prints as {raw!r}, which parse_sql reads back as {back!r}')
                     if target == 'sqlite' and '\x00' not in expect:
                         try:
                             back = self.con.execute('select ' + raw).fetchone()[0]
@@ -402,7 +419,7 @@ class CHECK(Check):
         return res
 
     def coverage(self, agg):
-        return {'exhaustive': True, 'alphabet': ALPHA if self.tier == 'thorough' else ALPHA[:12], 'positions': POSITIONS, 'targets': TARGETS,
+        return {'exhaustive': True, 'alphabet': ALPHA if self.tier == 'thorough' else ALPHA[:13], 'positions': POSITIONS, 'targets': TARGETS,
                 'rule': 'all strings up to the length bound + numbers/booleans/NULL/dates x 7 positions x 6 renderings; all ordered pairs of 18 twin values (0 / False / 0.0, 1 / True / 1.0 / "1" ...) as two constants of one statement in 5 positions and as two statements on one renderer object; distinct_nontrivial = distinct '
                         '(target, position, rendered text)'}
 
